@@ -61,7 +61,8 @@ def trigger_value(name):
 
 def build(case):
     """-> (component, start, explicit end, DURATION, [alarm dicts])"""
-    _, provider, path, cname, sk, ek, alarms = case
+    _, provider, path, cname, sk, ek, alarms = case[:7]
+    extras = len(case) > 7 and case[7]
     comp = Event() if cname == "VEVENT" else Todo()
     comp.add("uid", "c14")
     start = start_value(sk)
@@ -94,6 +95,12 @@ def build(case):
             a.REPEAT = rep
         if rdur is not None:
             a.DURATION = TD[rdur]
+        if extras:
+            # RFC 9074 / 5545 properties that do not take part in the computation of alarm times
+            a.add("proximity", "DEPART")
+            a.add("uid", "alarm-uid")
+            a.add("related-to", "other-alarm", parameters={"RELTYPE": "SNOOZE"})
+            a.add("description", "text")
         comp.add_component(a)
         specs.append({"trigger": tv, "related": rel, "repeat": rep, "duration": TD[rdur] if rdur else None})
     return comp, start, end, dur, specs
@@ -125,7 +132,7 @@ def fail(cls, case, expected, observed):
 
 
 def run_case(case):
-    _, provider, path, cname, sk, ek, alarms = case
+    _, provider, path, cname, sk, ek, alarms = case[:7]
     env.use_provider(provider)
     comp, start, end, dur, specs = build(case)
     if path in ("parsed", "parsed+"):
@@ -227,5 +234,8 @@ def run(ctx):
                                 for tr in itertools.product(REDUCED[::3], repeat=3):
                                     yield ("c", provider, path, cname, sk, ek, tr)
                             yield ("c", provider, path, cname, sk, ek, ())
+                            # every single alarm shape once more with PROXIMITY / UID / RELATED-TO / DESCRIPTION on the alarm
+                            for t, r, rd in REDUCED:
+                                yield ("c", provider, path, cname, sk, ek, ((t, r, rd),), True)
 
     ctx.explore("components x alarms", gen, run_case)
